@@ -325,10 +325,9 @@ Theorem C12_origin_shift_moment_table :
 Proof. exact (@table_origin_shift). Qed.
 Print Assumptions C12_origin_shift_moment_table.
 
-(* angular momentum about a displaced origin = L + t x p (t = -d): proved for the primitive products that
-   angmom_block_re contracts (moment, derivative and momentum tables of the models); PARTIAL: not lifted through
-   the (linear) contraction to angmom_block_re / angmom_integral_re *)
-Theorem C12_origin_shift_angular_momentum_partial :
+(* angular momentum about a displaced origin = L + t x p (t = -d) for the primitive products that
+   angmom_block_re contracts (moment, derivative and momentum tables of the models) *)
+Theorem C12_origin_shift_angular_momentum_primitive :
   forall (F : Type) (K : Fops F),
   is_field K ->
   forall (Ax Ay Az Bx By Bz alpha beta tx ty tz : F) (la lb : nat) (ca cb : comp),
@@ -353,7 +352,55 @@ Theorem C12_origin_shift_angular_momentum_partial :
   angmom_prim K d mt ca cb =
   map (fun '(l, x) => fadd K l x) (combine (angmom_prim K d m0 ca cb) (cross3 K (tx, ty, tz) p)).
 Proof. exact (@angmom_prim_shift). Qed.
-Print Assumptions C12_origin_shift_angular_momentum_partial.
+Print Assumptions C12_origin_shift_angular_momentum_primitive.
+
+(* AngularMomentumIntegral.construct_array_contraction is its three Cartesian component blocks zipped *)
+Theorem C12_angular_momentum_block_components :
+  forall (F : Type) (K : Fops F) (sa sb : shell F),
+  angmom_block_re K sa sb =
+  zip4 (fun (xy : list F) (z : F) => xy ++ [z])
+    (zip4 (fun x y : F => [x; y]) (angmom_comp_block K sa sb 0) (angmom_comp_block K sa sb 1))
+    (angmom_comp_block K sa sb 2).
+Proof. exact (@angmom_block_re_comps). Qed.
+Print Assumptions C12_angular_momentum_block_components.
+
+(* MomentumIntegral.construct_array_contraction likewise *)
+Theorem C12_momentum_block_components :
+  forall (F : Type) (K : Fops F) (sa sb : shell F),
+  momentum_block_re K sa sb =
+  zip4 (fun (xy : list F) (z : F) => xy ++ [z])
+    (zip4 (fun x y : F => [x; y]) (momentum_comp_block K sa sb 0) (momentum_comp_block K sa sb 1))
+    (momentum_comp_block K sa sb 2).
+Proof. exact (@momentum_block_re_comps). Qed.
+Print Assumptions C12_momentum_block_components.
+
+(* block level (through the contraction): every entry of every Cartesian component of the angular-momentum block of
+   the moved shell pair = entry of the original + (t x p) with p the momentum block entries, i.e. L about a
+   displaced origin = L - d x p; PARTIAL: not lifted through the Hermitian assembly of a whole basis
+   (angmom_integral_re) *)
+Theorem C12_origin_shift_angular_momentum_block_partial :
+  forall (F : Type) (K : Fops F),
+  is_field K ->
+  forall (sa sb : shell F) (tx ty tz : F) (c ma ia mb ib : nat),
+  (forall x : F, fapx K x = x) ->
+  fadd K (f1 K) (f1 K) <> f0 K ->
+  exps_ok K sa sb ->
+  comps_within sa ->
+  comps_within sb ->
+  (c < 3)%nat ->
+  (ma < nseg sa)%nat ->
+  (mb < nseg sb)%nat ->
+  (ia < length (comps_of sa))%nat ->
+  (ib < length (comps_of sb))%nat ->
+  let t := (tx, ty, tz) in
+  let p := fun k : nat => get4 K ma ia mb ib (momentum_comp_block K sa sb k) in
+  get4 K ma ia mb ib (angmom_comp_block K (shift_shell K tx ty tz sa) (shift_shell K tx ty tz sb) c) =
+  fadd K
+    (fadd K (get4 K ma ia mb ib (angmom_comp_block K sa sb c))
+       (fmul K (tget t ((c + 1) mod 3)) (p ((c + 2) mod 3))))
+    (fmul K (fopp K (tget t ((c + 2) mod 3))) (p ((c + 1) mod 3))).
+Proof. exact (@angmom_block_shift). Qed.
+Print Assumptions C12_origin_shift_angular_momentum_block_partial.
 
 (* ==================================================================================================== *)
 (* 3. The 48 signed axis permutations (generated by one reflection and two transpositions) *)
@@ -427,9 +474,8 @@ Theorem C12_axis_swap_yz_primitive :
 Proof. exact (@prim3_swap_yz). Qed.
 Print Assumptions C12_axis_swap_yz_primitive.
 
-(* reflection of the x axis multiplies the 3-D primitive by (-1)^(o_x+a_x+b_x); PARTIAL: primitive level
-   (the lift to the contracted block is linearity of the contraction, not written out) *)
-Theorem C12_reflection_x_primitive_partial :
+(* reflection of the x axis multiplies the 3-D primitive by (-1)^(o_x+a_x+b_x) *)
+Theorem C12_reflection_x_primitive :
   forall (F : Type) (K : Fops F),
   is_field K ->
   forall (Ax Bx Cx alpha beta : F) (la lb km : nat) (ty tz : list (list (list F))) (o ca cb : comp),
@@ -443,10 +489,10 @@ Theorem C12_reflection_x_primitive_partial :
   fmul K (sg K (fst (fst o) + fst (fst ca) + fst (fst cb)))
     (prim3 K (table K Ax Bx Cx alpha beta la lb km, ty, tz) o ca cb).
 Proof. exact (@prim3_reflect_x). Qed.
-Print Assumptions C12_reflection_x_primitive_partial.
+Print Assumptions C12_reflection_x_primitive.
 
-(* same for the derivative family; PARTIAL as above *)
-Theorem C12_reflection_x_derivative_primitive_partial :
+(* same for the derivative family *)
+Theorem C12_reflection_x_derivative_primitive :
   forall (F : Type) (K : Fops F),
   is_field K ->
   forall (Ax Bx alpha beta : F) (la lb D : nat) (ty tz : list (list (list F))) (o ca cb : comp),
@@ -460,7 +506,87 @@ Theorem C12_reflection_x_derivative_primitive_partial :
   fmul K (sg K (fst (fst o) + fst (fst ca) + fst (fst cb)))
     (prim3 K (dtable K Ax Bx alpha beta la lb D, ty, tz) o ca cb).
 Proof. exact (@dprim3_reflect_x). Qed.
-Print Assumptions C12_reflection_x_derivative_primitive_partial.
+Print Assumptions C12_reflection_x_derivative_primitive.
+
+(* block level: every entry of the multipole block of the x-reflected pair (origin reflected along) *)
+Theorem C12_reflection_x_multipole_block :
+  forall (F : Type) (K : Fops F),
+  is_field K ->
+  forall (Cx Cy Cz : F) (orders : list comp) (sa sb : shell F) (io ma ia mb ib : nat),
+  (forall x : F, fapx K x = x) ->
+  fadd K (f1 K) (f1 K) <> f0 K ->
+  exps_ok K sa sb ->
+  comps_within sa ->
+  comps_within sb ->
+  (io < length orders)%nat ->
+  (ma < nseg sa)%nat ->
+  (mb < nseg sb)%nat ->
+  (ia < length (comps_of sa))%nat ->
+  (ib < length (comps_of sb))%nat ->
+  get4 K ma ia mb ib
+    (nth io (mm_block K (fopp K Cx) Cy Cz orders (reflect_x_shell K sa) (reflect_x_shell K sb)) []) =
+  fmul K
+    (sg K
+       (fst (fst (nth io orders (0%nat, 0%nat, 0%nat))) +
+        fst (fst (nth ia (comps_of sa) (0%nat, 0%nat, 0%nat))) +
+        fst (fst (nth ib (comps_of sb) (0%nat, 0%nat, 0%nat)))))
+    (get4 K ma ia mb ib (nth io (mm_block K Cx Cy Cz orders sa sb) [])).
+Proof. exact (@mm_block_reflect_x). Qed.
+Print Assumptions C12_reflection_x_multipole_block.
+
+(* Overlap.construct_array_contraction of the x-reflected pair *)
+Theorem C12_reflection_x_overlap_block :
+  forall (F : Type) (K : Fops F),
+  is_field K ->
+  forall (sa sb : shell F) (ma ia mb ib : nat),
+  (forall x : F, fapx K x = x) ->
+  fadd K (f1 K) (f1 K) <> f0 K ->
+  exps_ok K sa sb ->
+  comps_within sa ->
+  comps_within sb ->
+  (ma < nseg sa)%nat ->
+  (mb < nseg sb)%nat ->
+  (ia < length (comps_of sa))%nat ->
+  (ib < length (comps_of sb))%nat ->
+  get4 K ma ia mb ib (overlap_block K (reflect_x_shell K sa) (reflect_x_shell K sb)) =
+  fmul K
+    (sg K
+       (fst (fst (nth ia (comps_of sa) (0%nat, 0%nat, 0%nat))) +
+        fst (fst (nth ib (comps_of sb) (0%nat, 0%nat, 0%nat)))))
+    (get4 K ma ia mb ib (overlap_block K sa sb)).
+Proof. exact (@overlap_block_reflect_x). Qed.
+Print Assumptions C12_reflection_x_overlap_block.
+
+(* derivative blocks (kinetic, momentum) of the x-reflected pair *)
+Theorem C12_reflection_x_diffop_block :
+  forall (F : Type) (K : Fops F),
+  is_field K ->
+  forall (orders : list comp) (sa sb : shell F) (io ma ia mb ib : nat),
+  (forall x : F, fapx K x = x) ->
+  fadd K (f1 K) (f1 K) <> f0 K ->
+  exps_ok K sa sb ->
+  comps_within sa ->
+  comps_within sb ->
+  (io < length orders)%nat ->
+  (ma < nseg sa)%nat ->
+  (mb < nseg sb)%nat ->
+  (ia < length (comps_of sa))%nat ->
+  (ib < length (comps_of sb))%nat ->
+  get4 K ma ia mb ib (nth io (diffop_block K orders (reflect_x_shell K sa) (reflect_x_shell K sb)) []) =
+  fmul K
+    (sg K
+       (fst (fst (nth io orders (0%nat, 0%nat, 0%nat))) +
+        fst (fst (nth ia (comps_of sa) (0%nat, 0%nat, 0%nat))) +
+        fst (fst (nth ib (comps_of sb) (0%nat, 0%nat, 0%nat)))))
+    (get4 K ma ia mb ib (nth io (diffop_block K orders sa sb) [])).
+Proof. exact (@diffop_block_reflect_x). Qed.
+Print Assumptions C12_reflection_x_diffop_block.
+
+(* the hypothesis comps_within holds for the default Cartesian components *)
+Theorem C12_default_components_within_l :
+  forall (F : Type) (s : shell F), s_comps s = [] -> comps_within s.
+Proof. exact (@default_comps_within). Qed.
+Print Assumptions C12_default_components_within_l.
 
 (* block level: the x<->y exchanged system's block read at the exchanged component positions *)
 Theorem C12_axis_swap_xy_multipole_block :
